@@ -269,6 +269,65 @@ ENUM_TABLES = {
 }
 
 
+def helpers_present(ctx):
+    """the two translation helpers of the loaders exist as functions (the form the rules were written for); when a tree has folded them
+    into the loaders, the same statements are read off the loaders' own terms"""
+    return ctx.prog.functions.get(CLS + '._load_crypto_algs') is not None and ctx.prog.functions.get(CLS + '._load_from_dict') is not None
+
+
+def lookup_contract(ctx, q):
+    """function q(key, table) returns table[key] and turns the KeyError of an unknown key into ConfigurationError"""
+    fi = ctx.prog.functions.get(q)
+    if fi is None or not isinstance(fi.node, ast.FunctionDef):
+        return False
+    ps = fi.call_params()
+    if len(ps) != 2:
+        return False
+    L = ctx.sval(fi)
+    rets = [(pc, t) for pc, t, _ in L.returns]
+    ok = len(rets) == 1 and strip_ids(rets[0][1]) == ('index', ('param', ps[1]), ('param', ps[0])) \
+        and common.lookup_side(rets[0][0], ('param', ps[0])) == 'hit'
+    bad = [(rpc, rt) for rpc, rt, _ in L.raises]
+    return ok and len(bad) == 1 and tq.is_call(bad[0][1], 'new configuration.ConfigurationError') and \
+        common.lookup_side(bad[0][0], ('param', ps[0])) == 'miss'
+
+
+def lookup_of(ctx, term):
+    """(key term, table term) when the term is the translation of a name through a table: `_load_from_dict(key, table)`, a call of any
+    function with that contract, or `table[key]` written in the loader itself (its KeyError is then the loader's to translate, which
+    B1 decides: nothing but ConfigurationError leaves Configuration(...))"""
+    t = strip_ids(term)
+    if tq.is_call(t) and isinstance(t[1], str):
+        a = [v for _, v in t[3]]
+        if t[1] == CLS + '._load_from_dict' and len(a) == 2:
+            return a[0], a[1]
+        if len(a) == 2 and t[1].startswith(CFG_MOD + '.') and lookup_contract(ctx, t[1]):
+            return a[0], a[1]
+    if t[0] == 'index' and (t[1][0] == 'dict' or (t[1][0] == 'global' and t[1][1].startswith(CFG_MOD + '.'))):
+        return t[2], t[1]          # (a module-level table is the display it is bound to)
+    return None
+
+
+def _decide_each(term, test, value):
+    """a one-comprehension list whose filter mentions `test`: the list with the test decided (dropped, or the empty list)"""
+    t = strip_ids(term)
+    if t[0] == 'list' and len(t[1]) == 1 and isinstance(t[1][0], tuple) and t[1][0][0] == 'each':
+        ea = t[1][0]
+        conds = []
+        for a in ea[3]:
+            if strip_ids(a[0]) == test:
+                if a[1] != value:
+                    return ('list', ())
+                continue
+            if a[0][0] == 'not' and strip_ids(a[0][1]) == test:
+                if a[1] == value:
+                    return ('list', ())
+                continue
+            conds.append(a)
+        return ('list', (('each', ea[1], ea[2], tuple(conds), ea[4]),))
+    return t
+
+
 def check_field(ctx, fi, d, ntname, field, term, spec, site):
     reads_exp, wrappers = spec
     reads = set((k, default_value(dv)) for k, dv in conf_reads(term, d))
@@ -277,6 +336,9 @@ def check_field(ctx, fi, d, ntname, field, term, spec, site):
                                  for k, dv in sorted(reads_exp, key=str))),
         key=('B2', ntname, field, 'reads'), site=site, detail={'found': sorted(map(str, reads))})
     names = callee_names(term)
+    if '_load_from_dict' in wrappers and '_load_from_dict' not in names and any(
+            lookup_of(ctx, x) is not None for x in subterms(strip_ids(term)) if isinstance(x, tuple) and x):
+        names = set(names) | {'_load_from_dict'}        # the same translation, written as a call of an equivalent function or in place
     ctx.check(wrappers <= names, 'B2', '%s.%s goes through %s' % (ntname, field, ', '.join(sorted(wrappers))),
               key=('B2', ntname, field, 'conversion'), site=site, detail={'found': sorted(n for n in names if n)})
 
@@ -290,6 +352,8 @@ def check_alg_list(ctx, fi, d, what, term, key, default, table, ah_test, site):
         st = strip_ids(ah_test)
         esp = tq.restrict(term, lambda t: False if strip_ids(t) == st else None)
         ah = tq.restrict(term, lambda t: True if strip_ids(t) == st else None)
+        if not helpers_present(ctx):
+            esp, ah = _decide_each(esp, st, False), _decide_each(ah, st, True)
         ctx.check(ah == ('list', ()) and esp != ah, 'B2', '%s: the `%s` list is emptied exactly when the IPsec protocol is AH' % (what, key),
                   key=('B2', what, key, 'ah-drops-encr'), site=site, detail={'found': tq.text(term, 300)})
         loaded = esp
@@ -299,6 +363,25 @@ def check_alg_list(ctx, fi, d, what, term, key, default, table, ah_test, site):
         rd = conf_reads(a.get('names', NONE), d)
         ok = a.get('key') == const(key) and len(rd) == 1 and rd[0][0] == key and default_value(rd[0][1]) == default \
             and a.get('name_to_transform') == S._module_const(ctx.prog.module(CFG_MOD), table)
+    elif not helpers_present(ctx):
+        # the helper folded into the loader: [<lookup>(str(x), TABLE) for x in d.get(key, default)], every entry, in order - and a value
+        # that is not a list refused before it is iterated
+        lt = strip_ids(loaded)
+        if lt[0] == 'list' and len(lt[1]) == 1 and isinstance(lt[1][0], tuple) and lt[1][0][0] == 'each' and not lt[1][0][3]:
+            ea = lt[1][0]
+            names_t, item = ea[2], ea[4]
+            rd = conf_reads(names_t, d)
+            lk = lookup_of(ctx, item)
+            el = ('elem', names_t, 0)
+            ok = len(rd) == 1 and rd[0][0] == key and default_value(rd[0][1]) == default and lk is not None \
+                and lk[0] == ('call', 'builtins.str', NONE, (('#0', el),)) \
+                and lk[1] == strip_ids(S._module_const(ctx.prog.module(CFG_MOD), table))
+            if ok:
+                ty_ = tuple(sorted((('call', 'builtins.type', NONE, (('#0', names_t),)), ('global', 'builtins.list')), key=repr))
+                is_list = [('cmp', 'is') + ty_, ('cmp', '==') + ty_,
+                           ('call', 'builtins.isinstance', NONE, (('#0', names_t), ('#1', ('global', 'builtins.list'))))]
+                guard = [(rpc, rt) for rpc, rt, _ in S.raises if any(strip_ids(a_[0]) in is_list and not a_[1] for a_ in rpc)]
+                ok = bool(guard) and all(tq.is_call(rt, 'new configuration.ConfigurationError') for _, rt in guard)
     ctx.check(ok, 'B2', '%s: `%s` algorithms come from key %r (default %r) through %s' % (what, key, key, default, table),
               key=('B2', what, key, 'alg-list'), site=site, detail={'found': tq.text(loaded, 200)})
 
@@ -308,7 +391,7 @@ def run(ctx):
     init = ctx.func(CLS + '.__init__')
     taint = Taint(ctx)
     ctx.floor('B1 functions holding untyped configuration values',
-              sum(1 for q, s in taint.tainted.items() if s), 6)
+              sum(1 for q, s in taint.tainted.items() if s), 6 if helpers_present(ctx) else 3)
     ctx.stats['B1 tainted names'] = {q: sorted(s) for q, s in taint.tainted.items() if s}
     esc = ctx.escape('c19', kills=common.crypto_kills(ctx), extra_effects=taint.effects)
 
@@ -434,8 +517,8 @@ def run(ctx):
                 r2 = [k for k, _ in conf_reads(a.get('ip_proto', NONE), d_ips)]
                 okf = r0 == [side + '_subnet'] and r1 == [side + '_port'] and r2 == ['ip_proto']
                 ipt = a.get('ip_proto', NONE)
-                okf = okf and tq.is_call(ipt, CLS + '._load_from_dict') and \
-                    tq.args(ipt).get('cnf_dict') == LP._module_const(cm, '_ip_proto_name_to_enum')
+                lk_ = lookup_of(ctx, ipt)
+                okf = okf and lk_ is not None and lk_[1] == strip_ids(LP._module_const(cm, '_ip_proto_name_to_enum'))
             ctx.check(okf, 'B2', 'IpsecConfiguration.%s = from_network(%s_subnet, %s_port, ip_proto looked up in _ip_proto_name_to_enum)' % (
                 f, side, side), key=('B2', 'IpsecConfiguration', f, 'orientation'), site=site)
         # index
@@ -447,7 +530,7 @@ def run(ctx):
                   'IpsecConfiguration.index is the configured index, or a random one when absent',
                   key=('B2', 'IpsecConfiguration', 'index'), site=site)
         e = kw['mode']
-        ctx.check(tq.is_call(e, CLS + '._load_from_dict') and tq.args(e).get('cnf_dict') == LP._module_const(cm, '_mode_name_to_enum'),
+        ctx.check(lookup_of(ctx, e) is not None and lookup_of(ctx, e)[1] == strip_ids(LP._module_const(cm, '_mode_name_to_enum')),
                   'B2', 'IpsecConfiguration.mode is looked up in _mode_name_to_enum', key=('B2', 'IpsecConfiguration', 'mode', 'table'),
                   site=site)
         check_proposal(ctx, lips, d_ips, 'IPsec proposal', kw.get('proposal'), None, IPSEC_ALGS, True, site)
@@ -588,9 +671,9 @@ def check_proposal(ctx, fi, d, what, expr, proto, algs, ipsec, site):
                   key=('B2', what, 'protocol'), site=site)
     else:
         rd = conf_reads(pid, d)
-        ctx.check(tq.is_call(pid, CLS + '._load_from_dict') and len(rd) == 1 and rd[0][0] == 'ipsec_proto'
+        ctx.check(lookup_of(ctx, pid) is not None and len(rd) == 1 and rd[0][0] == 'ipsec_proto'
                   and default_value(rd[0][1]) == 'esp' and
-                  tq.args(pid).get('cnf_dict') == S._module_const(ctx.prog.module(CFG_MOD), '_ipsec_proto_name_to_enum'), 'B2',
+                  lookup_of(ctx, pid)[1] == strip_ids(S._module_const(ctx.prog.module(CFG_MOD), '_ipsec_proto_name_to_enum')), 'B2',
                   '%s has the configured ipsec_proto (default esp)' % what, key=('B2', what, 'protocol'), site=site)
     tr = a.get('transforms', NONE)
     ops = segments(tr)
@@ -692,6 +775,28 @@ def check_ip_loaders(ctx):
 
 
 def check_crypto_algs(ctx, rule='B2'):
+    if not helpers_present(ctx):
+        # folded into the loaders: each transform list of both proposals is decided where it is built (check_alg_list, B2); here the same
+        # statement for the property that shares this rule - every operand of the two transform concatenations that is read from the
+        # mapping is a list built entry by entry, in order, through a table lookup
+        n = 0
+        for q, dparam in ((CLS + '._load_ike_conf', 1), (CLS + '._load_ipsec_conf', 1)):
+            fi = ctx.func(q)
+            S = ctx.sval(fi)
+            for c in S.calls_to(callee='new message.Proposal'):
+                for op in segments(tq.args(c.term).get('transforms', NONE)):
+                    for leaf_ in (lambda t: [t[2], t[3]] if t[0] == 'cond' else [t])(strip_ids(op)):
+                        if leaf_[0] == 'list' and len(leaf_[1]) == 1 and isinstance(leaf_[1][0], tuple) and leaf_[1][0][0] == 'each':
+                            n += 1
+                            ea = leaf_[1][0]
+                            lk = lookup_of(ctx, ea[4])
+                            # (a condition that does not look at the element - "the protocol is not AH" - gates the whole list, it filters nothing)
+                            per_elem = [a_ for a_ in ea[3] if tq.contains(strip_ids(a_[0]), ('elem', ea[2], 0))]
+                            ctx.check(not per_elem and lk is not None and lk[0] == ('call', 'builtins.str', NONE, (('#0', ('elem', ea[2], 0)),)), rule,
+                                      '%s: a configured algorithm list is translated name by name, in the listed order, without filtering or '
+                                      'sorting' % fi.name, key=(rule, fi.name, 'alg-list-order', tq.text(ea[2], 60)), site=ctx.site(fi, c.node))
+        ctx.floor('%s algorithm lists built in the loaders' % rule, n, 7, rule=rule)
+        return
     fi = ctx.func(CLS + '._load_crypto_algs')
     ps = fi.call_params()
     ctx.require(len(ps) == 3, 'anchor vanished: _load_crypto_algs(key, names, name_to_transform)')
